@@ -428,6 +428,46 @@ class World:
                         m.nodata, real.copy())
         self.mutated = True
 
+    def op_apply(self):
+        """A grid made by Grid.apply with a function that rearranges the cells
+        (flip, transpose or rotation of a square grid, a Fortran-ordered copy):
+        its cells may sit in memory in another order than row by row; it is a
+        grid like any other for save/load, clone, clip and export."""
+        cs = self.cs
+        g, m, gid = self.pick()
+        funs = [("flipud", np.flipud), ("fliplr", np.fliplr),
+                ("asfortranarray", np.asfortranarray),
+                ("reversed_view", lambda x: x[::-1, ::-1])]
+        if m.nrows == m.ncols:
+            funs += [("transpose", np.transpose), ("rot90", np.rot90),
+                     ("transpose", np.transpose)]
+        name, fun = funs[cs.draw("fun", len(funs))]
+        self.log.ev("apply", gid, name)
+        try:
+            h = g.apply(fun)
+        except Exception as e:
+            raise Violation("apply_failed", f"grid#{gid}.apply({name}) raised "
+                            f"{e!r}", "apply")
+        real = np.asarray(h.data)
+        want = np.asarray(fun(m.data.reshape(m.nrows, m.ncols)))
+        if real.shape != (m.nrows, m.ncols) or \
+                real.astype(m.dtype).tobytes() != np.ascontiguousarray(
+                    want).astype(m.dtype).tobytes():
+            # Grid.apply itself is not an operation of the property: only go
+            # on with grids it built as expected
+            return
+        if not real.flags.c_contiguous:
+            self.ctx.hit("probe.grid_cells_not_in_row_major_memory_order")
+        m2 = GModel(m.nrows, m.ncols, m.cellsize, m.xll, m.yll, m.dtype,
+                    m.nodata, np.ascontiguousarray(real).copy())
+        check_grid(h, m2, f"grid#{gid}.apply({name})", "apply")
+        if len(self.grids) < 5:
+            self.add_grid(h, m2)
+        else:
+            self.grids[cs.draw("replace", len(self.grids))] = \
+                [h, m2, self.nid + 1]
+            self.nid += 1
+
     def op_disk_fault_save(self):
         """The disk fills up (file-size limit, hysim/faults.py) during a save:
         it either raises - nothing is then concluded about that stem until it
@@ -1187,6 +1227,7 @@ class World:
 
 OPS = [("new", 8, None), ("mutate", 10, "g"), ("save", 9, "g"),
        ("disk_fault_save", 3, "g"), ("load_into", 3, "g"),
+       ("apply", 4, "g"),
        ("load", 9, "s"), ("foreign", 4, None), ("dict_roundtrip", 5, "g"),
        ("clone", 6, "g"), ("clone_dtype", 5, "g"), ("clip", 6, "g"),
        ("chdir", 2, None), ("cat_caller_edits_grid", 2, "c"),
